@@ -461,6 +461,13 @@ func StepGen(identity, allowSlow bool) *rapid.Generator[Step] {
 			if rapid.Bool().Draw(t, "montTarget") {
 				st.J |= 4
 			}
+			if gen.Chance(t, "nearOne", 1, 4) {
+				// stored limbs in the word-wise neighbourhood of the Montgomery form of 1 (what "is it normalised?" tests see)
+				v := gen.PerturbWords(t, rP, 64)
+				if v.Sign() != 0 && v.Cmp(ref.P) < 0 {
+					st.A, st.J = gen.H(v), (st.J&3)|4
+				}
+			}
 		case "mulinv", "id:kn-k":
 			st.A = gen.H(gen.NonZeroInt(ref.N).Draw(t, "k"))
 			st.J = rapid.IntRange(0, 5).Draw(t, "j")
@@ -548,3 +555,6 @@ func LinePair(x0 *big.Int, odd bool, m int64) (ref.Point, ref.Point) {
 		x.Mod(x, ref.P)
 	}
 }
+
+// ApplyStep carries out one representation step on e, whose current model value is cur (for stateful checks).
+func ApplyStep(e *secp256k1.Element, st Step, cur ref.Point) (*secp256k1.Element, error) { return apply(e, st, cur) }
